@@ -154,13 +154,14 @@ theorem d2d_exact (co ka pa src dst num : Nat)
         rw [hK] at y
         exact ha ⟨x, y⟩))
 
-/-! ## the hidden global offset is never written by the driver -/
+/-! ## the hidden global offset: never written by the driver BEFORE the repair of `C01-hidden-kernarg-stale-page` -/
 
-/-- the 24 bytes of kernel arguments `EnqueueMemCopyD2D` writes (`KernelMemCopyArgs{src, dst, n}`) -/
-def driverImage (c : Cfg) : List Nat := le8 c.src ++ le8 c.dst ++ le8 c.N
+/-- the 24 bytes of kernel arguments `EnqueueMemCopyD2D` wrote before the repair (`KernelMemCopyArgs{src, dst, n}`
+    without the hidden words) -/
+def driverImageOld (c : Cfg) : List Nat := le8 c.src ++ le8 c.dst ++ le8 c.N
 
-/-- the memory the kernel really starts on: only the 24 argument bytes and the packet are installed -/
-def driverMem (c : Cfg) (pk : List Nat) (m : Mem) : Mem := install c.pa pk (install c.ka (driverImage c) m)
+/-- the memory the kernel started on before the repair: only the 24 argument bytes and the packet are installed -/
+def driverMemOld (c : Cfg) (pk : List Nat) (m : Mem) : Mem := install c.pa pk (install c.ka (driverImageOld c) m)
 
 theorem zeros_getD (j : Nat) : ([0, 0, 0, 0, 0, 0, 0, 0] : List Nat).getD j 0 = 0 := by
   match j with
@@ -169,32 +170,32 @@ theorem zeros_getD (j : Nat) : ([0, 0, 0, 0, 0, 0, 0, 0] : List Nat).getD j 0 = 
 
 theorem le8_zero : le8 0 = [0, 0, 0, 0, 0, 0, 0, 0] := by decide
 
-theorem kernargImage_split (c : Cfg) : kernargImage c ++ [] = driverImage c ++ le8 0 := by
+theorem kernargImage_split (c : Cfg) : kernargImage c ++ [] = driverImageOld c ++ le8 0 := by
   rw [List.append_nil]; rfl
 
-theorem driverImage_length (c : Cfg) : (driverImage c).length = 24 := rfl
+theorem driverImageOld_length (c : Cfg) : (driverImageOld c).length = 24 := rfl
 
 /-- on a page whose bytes `ka+24 .. ka+31` are zero, installing 24 bytes gives the same memory content as
     installing the 32-byte image with an explicit zero offset -/
-theorem get_driverMem (c : Cfg) (pk : List Nat) (m : Mem)
+theorem get_driverMemOld (c : Cfg) (pk : List Nat) (m : Mem)
     (hfresh : ∀ j, j < 8 → get m (c.ka + 24 + j) = 0) :
-    get (driverMem c pk m) = get (launchMem c [] pk m) := by
+    get (driverMemOld c pk m) = get (launchMem c [] pk m) := by
   funext x
-  unfold driverMem launchMem
+  unfold driverMemOld launchMem
   rw [get_install, get_install c.pa]
   by_cases hp : c.pa ≤ x ∧ x < c.pa + pk.length
   · rw [if_pos hp, if_pos hp]
-  · rw [if_neg hp, if_neg hp, get_install, get_install, kernargImage_split, List.length_append, driverImage_length,
+  · rw [if_neg hp, if_neg hp, get_install, get_install, kernargImage_split, List.length_append, driverImageOld_length,
       show (le8 0).length = 8 from rfl]
     by_cases hk : c.ka ≤ x ∧ x < c.ka + 24
     · rw [if_pos hk, if_pos ⟨hk.1, by omega⟩, List.getD_eq_getElem?_getD, List.getD_eq_getElem?_getD,
-        List.getElem?_append_left (by rw [driverImage_length]; omega)]
+        List.getElem?_append_left (by rw [driverImageOld_length]; omega)]
     · rw [if_neg hk]
       by_cases hk2 : c.ka ≤ x ∧ x < c.ka + (24 + 8)
       · rw [if_pos hk2]
         have e : x = c.ka + 24 + (x - c.ka - 24) := by omega
         have hz : get m x = 0 := by rw [e]; exact hfresh _ (by omega)
-        rw [hz, List.getD_eq_getElem?_getD, List.getElem?_append_right (by rw [driverImage_length]; omega),
+        rw [hz, List.getD_eq_getElem?_getD, List.getElem?_append_right (by rw [driverImageOld_length]; omega),
           ← List.getD_eq_getElem?_getD, le8_zero, zeros_getD]
       · rw [if_neg hk2]
 
@@ -204,15 +205,15 @@ theorem fresh_kernarg_runE (c : Cfg) (hv : c.Valid) (hG : 0 < c.G) (pk : List Na
     (hsep : c.ka + 32 ≤ c.pa ∨ c.pa + pk.length ≤ c.ka)
     (hsrc : c.src < 2 ^ 64) (hdst : c.dst < 2 ^ 64)
     (hfresh : ∀ j, j < 8 → get m (c.ka + 24 + j) = 0)
-    (hbytes : ∀ i, i < 4 * c.K → get (driverMem c pk m) (c.src + i) < 256) :
-    ∃ m', runE P (disp c (driverImage c) pk) (fuel + 27) m = .ok m' ∧
-      (∀ i, i < 4 * c.K → get m' (c.dst + i) = get (driverMem c pk m) (c.src + i)) ∧
-      (∀ a, ¬ c.inDst a → get m' a = get (driverMem c pk m) a) := by
-  have himg : Img c (get (driverMem c pk m)) := by
-    rw [get_driverMem c pk m hfresh]
+    (hbytes : ∀ i, i < 4 * c.K → get (driverMemOld c pk m) (c.src + i) < 256) :
+    ∃ m', runE P (disp c (driverImageOld c) pk) (fuel + 27) m = .ok m' ∧
+      (∀ i, i < 4 * c.K → get m' (c.dst + i) = get (driverMemOld c pk m) (c.src + i)) ∧
+      (∀ a, ¬ c.inDst a → get m' a = get (driverMemOld c pk m) a) := by
+  have himg : Img c (get (driverMemOld c pk m)) := by
+    rw [get_driverMemOld c pk m hfresh]
     exact img_of_install c hv [] pk m hpk h4 h5 hsep hsrc hdst
-  obtain ⟨m', hrun, hget⟩ := runE_effect c hv hG (driverImage c) pk m fuel himg
-  change get m' = applyWrites (allPairs c (get (driverMem c pk m))) (get (driverMem c pk m)) at hget
+  obtain ⟨m', hrun, hget⟩ := runE_effect c hv hG (driverImageOld c) pk m fuel himg
+  change get m' = applyWrites (allPairs c (get (driverMemOld c pk m))) (get (driverMemOld c pk m)) at hget
   refine ⟨m', hrun, ?_, ?_⟩
   · intro i hi
     have hin : c.inDst (c.dst + i) := ⟨Nat.le_add_right _ _, by omega⟩
@@ -225,10 +226,72 @@ theorem fresh_kernarg_run (c : Cfg) (hv : c.Valid) (hG : 0 < c.G) (pk : List Nat
     (hsep : c.ka + 32 ≤ c.pa ∨ c.pa + pk.length ≤ c.ka)
     (hsrc : c.src < 2 ^ 64) (hdst : c.dst < 2 ^ 64)
     (hfresh : ∀ j, j < 8 → get m (c.ka + 24 + j) = 0)
+    (hbytes : ∀ i, i < 4 * c.K → get (driverMemOld c pk m) (c.src + i) < 256) :
+    (∀ i, i < 4 * c.K → get (run P (disp c (driverImageOld c) pk) m) (c.dst + i) = get (driverMemOld c pk m) (c.src + i)) ∧
+    (∀ a, ¬ c.inDst a → get (run P (disp c (driverImageOld c) pk) m) a = get (driverMemOld c pk m) a) := by
+  obtain ⟨m', hrun, h1, h2⟩ := fresh_kernarg_runE c hv hG pk m 999973 hpk h4 h5 hsep hsrc hdst hfresh hbytes
+  have hr : run P (disp c (driverImageOld c) pk) m = m' := by
+    unfold run
+    rw [show defaultFuel = 999973 + 27 from rfl, hrun]
+  rw [hr]
+  exact ⟨h1, h2⟩
+
+/-! ## the repaired driver writes the hidden words -/
+
+/-- the 48 bytes of kernel arguments the repaired `EnqueueMemCopyD2D` writes:
+    `KernelMemCopyArgs{Src, Dst, N, HiddenGlobalOffsetX: 0, HiddenGlobalOffsetY: 0, HiddenGlobalOffsetZ: 0}` -/
+def driverImage (c : Cfg) : List Nat := le8 c.src ++ le8 c.dst ++ le8 c.N ++ le8 0 ++ le8 0 ++ le8 0
+
+/-- the memory the kernel really starts on: the 48 argument bytes and the packet are installed -/
+def driverMem (c : Cfg) (pk : List Nat) (m : Mem) : Mem := install c.pa pk (install c.ka (driverImage c) m)
+
+/-- the image the driver writes is the image of the program proof (`kernargImage`: explicit arguments and a
+    zero hidden global offset x) followed by the zero offsets y and z -/
+theorem driverImage_eq (c : Cfg) : driverImage c = kernargImage c ++ (le8 0 ++ le8 0) := by
+  simp [driverImage, kernargImage, List.append_assoc]
+
+theorem driverMem_eq (c : Cfg) (pk : List Nat) (m : Mem) : driverMem c pk m = launchMem c (le8 0 ++ le8 0) pk m := by
+  unfold driverMem launchMem; rw [driverImage_eq]
+
+/-- whatever the page held before, the hidden global offset the kernel loads (bytes 24..31 of the
+    kernel-argument buffer) is zero in the memory the repaired driver installs -/
+theorem driverMem_hidden_zero (c : Cfg) (pk : List Nat) (m : Mem)
+    (hsep : c.ka + 32 ≤ c.pa ∨ c.pa + pk.length ≤ c.ka) (j : Nat) (hj : j < 8) :
+    get (driverMem c pk m) (c.ka + 24 + j) = 0 := by
+  unfold driverMem
+  rw [get_install, if_neg (by omega), get_install]
+  have hlen : (driverImage c).length = 48 := rfl
+  rw [if_pos ⟨by omega, by rw [hlen]; omega⟩]
+  have e : c.ka + 24 + j - c.ka = 24 + j := by omega
+  rw [e]
+  have : ∀ j, j < 8 → (driverImage c).getD (24 + j) 0 = 0 := by
+    intro j hj
+    match j, hj with
+    | 0, _ | 1, _ | 2, _ | 3, _ | 4, _ | 5, _ | 6, _ | 7, _ => rfl
+  exact this j hj
+
+/-- `copy_final` for the kernel-argument bytes the repaired driver writes: EVERY memory, no hypothesis on what
+    the kernel-argument page held before -/
+theorem driver_kernarg_runE (c : Cfg) (hv : c.Valid) (hG : 0 < c.G) (pk : List Nat) (m : Mem) (fuel : Nat)
+    (hpk : 8 ≤ pk.length) (h4 : pk.getD 4 0 = 64) (h5 : pk.getD 5 0 = 0)
+    (hsep : c.ka + 32 ≤ c.pa ∨ c.pa + pk.length ≤ c.ka)
+    (hsrc : c.src < 2 ^ 64) (hdst : c.dst < 2 ^ 64)
+    (hbytes : ∀ i, i < 4 * c.K → get (driverMem c pk m) (c.src + i) < 256) :
+    ∃ m', runE P (disp c (driverImage c) pk) (fuel + 27) m = .ok m' ∧
+      (∀ i, i < 4 * c.K → get m' (c.dst + i) = get (driverMem c pk m) (c.src + i)) ∧
+      (∀ a, ¬ c.inDst a → get m' a = get (driverMem c pk m) a) := by
+  rw [driverMem_eq] at hbytes
+  rw [driverImage_eq, driverMem_eq]
+  exact copy_final c hv hG (le8 0 ++ le8 0) pk m fuel hpk h4 h5 hsep hsrc hdst hbytes
+
+theorem driver_kernarg_run (c : Cfg) (hv : c.Valid) (hG : 0 < c.G) (pk : List Nat) (m : Mem)
+    (hpk : 8 ≤ pk.length) (h4 : pk.getD 4 0 = 64) (h5 : pk.getD 5 0 = 0)
+    (hsep : c.ka + 32 ≤ c.pa ∨ c.pa + pk.length ≤ c.ka)
+    (hsrc : c.src < 2 ^ 64) (hdst : c.dst < 2 ^ 64)
     (hbytes : ∀ i, i < 4 * c.K → get (driverMem c pk m) (c.src + i) < 256) :
     (∀ i, i < 4 * c.K → get (run P (disp c (driverImage c) pk) m) (c.dst + i) = get (driverMem c pk m) (c.src + i)) ∧
     (∀ a, ¬ c.inDst a → get (run P (disp c (driverImage c) pk) m) a = get (driverMem c pk m) a) := by
-  obtain ⟨m', hrun, h1, h2⟩ := fresh_kernarg_runE c hv hG pk m 999973 hpk h4 h5 hsep hsrc hdst hfresh hbytes
+  obtain ⟨m', hrun, h1, h2⟩ := driver_kernarg_runE c hv hG pk m 999973 hpk h4 h5 hsep hsrc hdst hbytes
   have hr : run P (disp c (driverImage c) pk) m = m' := by
     unfold run
     rw [show defaultFuel = 999973 + 27 from rfl, hrun]
